@@ -393,7 +393,10 @@ fn should_open(m: &M, cfg: &Cfg, now: u64) -> Vec<bool> {
     };
     for win in variants {
         let total = win.len();
-        let recorded = if m.reading_b { m.recs.len() } else { total };
+        // count-based: "at least minimum_number_of_calls recorded" can only mean the calls recorded
+        // since the window was last emptied (with minimum > window size the other reading would
+        // never evaluate the rate at all); for the time-based window both readings are accepted
+        let recorded = if m.reading_b || !cfg.time_based { m.recs.len() } else { total };
         if recorded < cfg.minimum() || total == 0 {
             res.push(false);
             continue;
